@@ -198,7 +198,7 @@ def _run(case, loop, S, RPCSession, MessageSession, RSTransport, USTransport, Se
     def req(method, rid):
         if kind == 'rpc':
             return json.dumps({'jsonrpc': '2.0', 'method': method, 'id': rid}).encode() + b'\n'
-        return s.transport._framer.frame((method.encode().ljust(12, b'\0')[:12], b'pay'))
+        return s.transport._framer.frame((method.encode()[:12], b'pay'))
 
     tasks = []
     rid = [0]
